@@ -18,7 +18,7 @@ RULE = (
 	'strings) x {Symbol, NEM} x {mainnet 0x68, testnet 0x98, vector identifiers 0x78/0xA8/0x60, random and boundary custom identifiers '
 	'incl. 0, 255 and the refused 256+}; for every derived address: bytes, text, parse, validity on its own network and on other '
 	'identifiers; a string stream built from valid texts by one edit each (character outside the alphabet, lower case, wrong length, '
-	'padding character, white space / line ends before, after and instead of the last character, other network kind, wrong identifier, each checksum byte perturbed, each hash byte region perturbed, Symbol '
+	'padding character, white space / line ends before, after and instead of the last character, other network kind, wrong identifier, each checksum byte perturbed, structured wrong checksums (every other window digest[k:k+n] of the checksum hash, rotations, reversal, swaps, XOR-cancelling and sum-preserving byte differences, the checksum of another network byte / without the network byte / under the other chain hash, zero-padded prefixes and suffixes, stray bytes before and after the right checksum) through text and bytes, each hash byte region perturbed, Symbol '
 	'last-character aliases) plus random alphabet / non-alphabet strings; an address-bytes stream (derived, every checksum byte perturbed, '
 	'identifier perturbed, random 24/25-byte arrays, odd lengths through a stub). A case is distinct by its (operation, arguments).')
 TRUSTED_BASE = [
@@ -531,6 +531,56 @@ def string_edits(rng, kind, identifier, address_bytes, text):
 	return edits
 
 
+def structured_checksums(rng, kind, identifier, address_bytes):
+	"""Addresses whose checksum field is wrong in a *structured* way (name, bytes): related to the right checksum or to the
+	checksum hash, so that a comparison which is weaker than equality with digest[0:n] (substring / window search, order-insensitive,
+	accumulating differences, ignoring the network byte, prefix-only ...) accepts one of them. Same size as the address unless the
+	name says otherwise; whether each is to be rejected is decided by the specification, not assumed (a variant can coincide with
+	the right checksum)."""
+	count = KINDS[kind]['checksum']
+	versioned = address_bytes[:21]
+	digest = spec_hash(kind, versioned)
+	right = digest[:count]
+	variants = []
+	for start in range(1, 9):
+		variants.append((f'window-{start}', versioned + digest[start:start + count]))
+	variants.append(('window-last', versioned + digest[-count:]))
+	for shift in range(1, count):
+		variants.append((f'rotated-{shift}', versioned + right[shift:] + right[:shift]))
+	variants.append(('reversed', versioned + right[::-1]))
+	for first in range(count):
+		for second in range(first + 1, count):
+			swapped = bytearray(right)
+			swapped[first], swapped[second] = swapped[second], swapped[first]
+			variants.append((f'swapped-{first}-{second}', versioned + bytes(swapped)))
+			cancelling = bytearray(right)
+			delta = rng.randrange(1, 256)
+			cancelling[first] ^= delta
+			cancelling[second] ^= delta
+			variants.append((f'xor-cancelling-{first}-{second}', versioned + bytes(cancelling)))
+			summing = bytearray(right)
+			summing[first] = (summing[first] + delta) % 256
+			summing[second] = (summing[second] - delta) % 256
+			variants.append((f'sum-preserving-{first}-{second}', versioned + bytes(summing)))
+	for other in other_identifiers(identifier)[:3]:
+		variants.append((f'checksum-of-identifier-{other:#x}', versioned + spec_hash(kind, bytes([other]) + versioned[1:])[:count]))
+	variants.append(('checksum-without-identifier', versioned + spec_hash(kind, versioned[1:])[:count]))
+	variants.append(('checksum-of-key-hash-only', versioned + spec_hash(kind, versioned[1:21] + bytes([identifier]))[:count]))
+	variants.append(('double-hash', versioned + spec_hash(kind, digest)[:count]))
+	variants.append(('other-hash', versioned + spec_hash('nem' if 'symbol' == kind else 'symbol', versioned)[:count]))
+	variants.append(('complement', versioned + bytes(byte ^ 0xFF for byte in right)))
+	for kept in range(count):
+		variants.append((f'prefix-{kept}-zero-padded', versioned + right[:kept] + bytes(count - kept)))
+		variants.append((f'zero-padded-suffix-{kept}', versioned + bytes(count - kept) + right[count - kept:]))
+	stray = rng.randrange(256)
+	variants.append(('stray-byte-before-truncated', versioned + bytes([stray]) + right[:count - 1]))
+	variants.append(('right-checksum-then-stray-byte (longer)', versioned + right + bytes([stray])))
+	variants.append(('stray-byte-then-right-checksum (longer)', versioned + bytes([stray]) + right))
+	variants.append(('four-digest-bytes (longer)' if 3 == count else 'five-digest-bytes (longer)', versioned + digest[:count + 1]))
+	variants.append(('right-checksum-twice (longer)', versioned + right + right))
+	return variants
+
+
 def load_vectors():
 	from .common import REPO
 	vectors = {}
@@ -562,6 +612,15 @@ def generate(ctx, vectors):
 			edits = string_edits(rng, kind, identifier, address_bytes, text)
 			for edit, against, edited in (edits if rng.random() < 0.25 else rng.sample(edits, 6)):
 				cases.append({'op': 'string', 'net': kind, 'id': against, 's': edited, 'edit': edit, 'shipped': shipped})
+			# structured wrong checksums through both entry points (bytes and, when the size fits, text)
+			variants = structured_checksums(rng, kind, identifier, address_bytes)
+			for name, data in (variants if rng.random() < 0.05 else rng.sample(variants, 3)):
+				cases.append({'op': 'bytes', 'net': kind, 'id': identifier, 'addr': data.hex().upper(), 'edit': 'checksum:' + name, 'shipped': shipped})
+			same_size = [(name, data) for name, data in variants if KINDS[kind]['size'] == len(data)]
+			for name, data in (same_size if rng.random() < 0.05 else rng.sample(same_size, 3)):
+				cases.append({
+					'op': 'string', 'net': kind, 'id': identifier, 's': spec_text(data)[:KINDS[kind]['encoded']], 'edit': 'checksum:' + name,
+					'shipped': shipped})
 			pick = rng.random()
 			if pick < 0.5:
 				offset = rng.randrange(KINDS[kind]['checksum'])
